@@ -131,7 +131,7 @@ func (s *wsSession) close() {
 
 // wsOpen connects and upgrades; a timed-out attempt is retried with the same
 // input (F10, see runHTTP).
-func wsOpen(c WSCase) (*wsSession, *evid.Failure) {
+func wsOpen(c WSCase, light bool) (*wsSession, *evid.Failure) {
 	for try := 0; try < len(httpTimeouts); try++ {
 		a := newAttempt()
 		a.names = []string{"Sec-WebSocket-Key"}
@@ -162,7 +162,7 @@ func wsOpen(c WSCase) (*wsSession, *evid.Failure) {
 				s.hc = hc
 			}
 		})
-		if !ok {
+		if !ok && !light {
 			// slow or lost? (see runHTTP)
 			if k, ferr := tapEP.newFlowSince(mark, portOf(c.Port)); ferr == nil {
 				c2s, s2c := tapEP.streams(k)
@@ -195,9 +195,12 @@ func wsOpen(c WSCase) (*wsSession, *evid.Failure) {
 		if uerr != nil {
 			return nil, evid.Failf("ws-upgrade-error", "the bundled client could not upgrade: %v", uerr)
 		}
-		var ferr error
-		s.flow, ferr = tapEP.newFlowSince(mark, portOf(c.Port))
-		s.wire = ferr == nil
+		if !light {
+			// (concurrent sessions cannot tell their flows apart by "new since the mark": no wire view there)
+			var ferr error
+			s.flow, ferr = tapEP.newFlowSince(mark, portOf(c.Port))
+			s.wire = ferr == nil
+		}
 		select {
 		case s.sc = <-a.wsConn:
 			return s, nil
@@ -212,8 +215,12 @@ func wsOpen(c WSCase) (*wsSession, *evid.Failure) {
 	return nil, evid.Failf("ws-timeout:upgrade", "no answer to the upgrade request within %v, three attempts", httpTimeouts)
 }
 
-func runWSOnce(c WSCase) *evid.Failure {
-	s, f := wsOpen(c)
+func runWSOnce(c WSCase) *evid.Failure { return runWSSession(c, false) }
+
+// runWSSession runs one session; light sessions (run concurrently with others)
+// are judged at the two ends only, without the wire view.
+func runWSSession(c WSCase, light bool) *evid.Failure {
+	s, f := wsOpen(c, light)
 	if f != nil {
 		return f
 	}
@@ -252,7 +259,7 @@ func runWSOnce(c WSCase) *evid.Failure {
 				add(evid.Failf("ws-accept-key", "RFC 6455 sample key %q: accept %q, want %q", key, acc, rfcSampleAccept))
 			}
 		}
-	} else {
+	} else if !light {
 		evid.Label("ws_flow_not_identified")
 	}
 	if len(recs) == 1 && key != "" && recs[0].Hdr["Sec-WebSocket-Key"] != key {
